@@ -402,6 +402,9 @@ class Scheduler(object):
             # canonical order: running thread first if still enabled
             en.sort(key=lambda t: (0 if t is running else 1, t.tid))
             run_en = running is not None and en[0] is running
+            if run_en and running.pending and running.pending[0] == 'yield':
+                # a voluntary yield: switching away is not a preemption
+                run_en = False
             if self.on_decision is not None:
                 stop = self.on_decision(self, en, running)
                 if stop:
@@ -420,7 +423,8 @@ class Scheduler(object):
             else:
                 c = 0
             st = ((running.tid if running is not None else -1,
-                   self.state_fn(self)) if self.state_fn else None)
+                   self.state_fn(self))
+                  if self.state_fn and i >= len(self.prefix) - 1 else None)
             exe.points.append(([t.tid for t in en], run_en, st))
             exe.choices.append(c)
             t = en[c]
@@ -494,12 +498,16 @@ class Explorer(object):
         probs = self.check(exe, s)
         return exe, probs
 
-    def explore(self):
-        self._explore([], 0)
+    def explore(self, part=None):
+        self._explore([], part)
 
-    def _explore(self, prefix, cost_prefix):
-        # iterative (explicit stack) DFS
+    def _explore(self, prefix, part=None):
+        # iterative (explicit stack) DFS; with part=(i, n) only the i-th
+        # residue class of the root execution's alternatives is explored
+        # (the root execution itself is judged by part 0 only), so that n
+        # processes together cover exactly the same schedules.
         stack = [list(prefix)]
+        first = True
         while stack:
             if self.max_exec and self.executions >= self.max_exec:
                 self.capped = True
@@ -544,4 +552,12 @@ class Explorer(object):
                         break
                 if run_en and c != 0:
                     cost += 1
+            if first and part is not None:
+                children = children[part[0]::part[1]]
+                if part[0] != 0:
+                    self.executions -= 1
+                    self.problems = [p for p in self.problems
+                                     if p[2] != list(exe.choices)]
+                    self.outcomes.clear()
+            first = False
             stack.extend(reversed(children))
